@@ -186,7 +186,12 @@ Section Rules.
            && (k <=? length (l_log x))%nat && (l_commit x <? k)%nat
            && (term_at (l_log x) k =? t)
            && quorum inc out supporters
-        then Some (add_cpt (set_ln s c (mkLN (l_log x) (l_dlog x) (l_imgs x) k (l_acks x))) t k)
+        then
+          let s1 := set_ln s c (mkLN (l_log x) (l_dlog x) (l_imgs x) k (l_acks x)) in
+          (* ghost only: the leader's own support is recorded as an implicit acknowledgement *)
+          let s2 := if is_prefix (firstn k (l_log x)) (l_dlog x) && (acked s c t <? k)%nat
+                    then set_acked s1 c t k else s1 in
+          Some (add_cpt s2 t k)
         else None
     | LCommitF n k =>
         let x := ln s n in
@@ -205,7 +210,10 @@ Section Rules.
         let x := ln s n in
         match l_imgs x with
         | img :: rest =>
+            (* the durable log is never ahead of the durable term: the hard state of a
+               Ready is durable no later than its entries *)
             if p_up (nodes (el s) n)
+               && forallb (fun e => eterm e <=? p_dterm (nodes (el s) n)) img
             then Some (set_ln s n (mkLN (l_log x) img rest (l_commit x) (l_acks x)))
             else None
         | [] => None
